@@ -33,7 +33,7 @@ type c12Fault struct {
 	Kind   string `json:"kind"`
 }
 
-var c12APIFaults = []string{"500", "422", "410", "504-before", "504-after", "transport-before", "transport-after"}
+var c12APIFaults = []string{"500", "422", "410", "404-on-create", "409conflict-on-create", "504-before", "504-after", "transport-before", "transport-after"}
 var c12HookFaults = []string{"500", "503", "refused", "garbage", "429"}
 var c12Races = []string{"race-delete", "race-create", "race-edit"}
 
@@ -169,6 +169,17 @@ func c12Run(t *testing.T, sc c12Scenario, f *c12Fault, ref *c12Ref) *c12Ref {
 					return &sim.Fault{Code: 422}
 				case "410":
 					return &sim.Fault{Code: 410}
+				case "404-on-create", "409conflict-on-create":
+					// a create refused for another reason than "already exists" (namespace gone, ...)
+					// is not one of the benign races
+					if ri.Verb != "create" {
+						atomic.StoreInt32(&fired, 2) // not applicable at this position
+						return nil
+					}
+					if f.Kind == "404-on-create" {
+						return &sim.Fault{Code: 404, Reason: "NotFound"}
+					}
+					return &sim.Fault{Code: 409, Reason: "Conflict"}
 				case "504-before":
 					return &sim.Fault{Code: 504}
 				case "504-after":
